@@ -408,7 +408,7 @@ func runC08(c *Ctx) {
 	ruleChannelHeaderWritten(c, "C08.9")
 
 	// ---- C08.5
-	c.Rule("C08.5", "one range predicate: IsChannelData, (*ChannelData).Decode, consumeSingleTURNFrame and ChannelNumber.Valid each reach isChannelNumberValid (statically, depth ≤ 2) and contain no other comparison of a channel number with constants", 4)
+	c.Rule("C08.5", "one range predicate: IsChannelData, (*ChannelData).Decode, consumeSingleTURNFrame and ChannelNumber.Valid each reach isChannelNumberValid (statically, depth ≤ 2) — or decide on the buffer's first byte with comparisons that all sit on the boundaries 0x3F|0x40 and 0x7F|0x80, the first bytes of exactly the valid numbers — and contain no other comparison of a channel number with constants", 4)
 	{
 		users := []*ssa.Function{w.Func("proto", "", "IsChannelData"), w.Func("proto", "ChannelData", "Decode"), w.Func("proto", "", "consumeSingleTURNFrame"), valid}
 		for _, u := range users {
@@ -431,6 +431,13 @@ func runC08(c *Ctx) {
 				})
 			}
 			visit(u, 0)
+			if !reached {
+				// ... or decides by the first byte on exactly the boundaries of the predicate's
+				// range (0x4000..0x7FFF are the numbers whose first byte is 0x40..0x7F)
+				if lo, up, other := firstByteClass(w, u); lo && up && other == "" {
+					reached = true
+				}
+			}
 			// no private re-implementation: comparisons with 0x4000 / 0x7fff constants
 			private := ""
 			w.eachInstr(u, func(in ssa.Instruction) {
